@@ -230,4 +230,4 @@ HOOK_COMMITS = ["c2bf0a1 verif hooks: cfg(trustfall_verif)-guarded exports of fi
 
 # Properties whose check has been verified by the coordinator to pass on the unchanged tree; only these are
 # claimed in MANIFEST.json (tools/gen_manifest.py).  Entries in PROPS that are not READY are work in progress.
-READY = {"C01", "C06", "C07", "C08", "C12", "C17", "C18", "C27"}
+READY = {"C01", "C06", "C07", "C08", "C09", "C12", "C17", "C18", "C27"}
